@@ -357,7 +357,8 @@ pub fn args_for(vars: &fidget_core::var::VarMap, flat: &Flat, var_vals: &[f32]) 
     let mut out = vec![0.0f32; vars.len()];
     for (v, i) in vars.iter() {
         if let Some(p) = flat.vars.iter().position(|u| *u == v) {
-            out[i] = var_vals[p];
+            // variables beyond the supplied point default to 0.25
+            out[i] = var_vals.get(p).copied().unwrap_or(0.25);
         }
     }
     out
